@@ -239,3 +239,170 @@ Proof.
 Qed.
 Example all_collects : collect h_all 8 7 [] = Some [3; 6; 0; 1].
 Proof. reflexivity. Qed.
+
+(* ------------------------------------------------------------------ the recursion depth (audit, finding 10) *)
+(* `collect = Some ds` is a hypothesis of deps_exact; it is not vacuous: the walk ends on every
+   configuration without an infinite chain of references, from some recursion depth on, and more
+   depth never changes the result *)
+Definition total_from (h : heap) (v : value) (n : nat) : Prop :=
+  forall m, n <= m -> forall a, exists a', walk h m v a = Some a'.
+
+Lemma common_fuel : forall A (P : nat -> A -> Prop) (l : list A),
+  (forall x, In x l -> exists n, forall m, n <= m -> P m x) ->
+  exists n, forall m, n <= m -> forall x, In x l -> P m x.
+Proof.
+  intros A P. induction l as [|x r IH]; intros H.
+  - exists 0. intros m _ x [].
+  - destruct (H x (or_introl eq_refl)) as (n1 & H1).
+    destruct IH as (n2 & H2); [intros y Y; apply H; right; auto|].
+    exists (max n1 n2). intros m M y [<-|Y]; [apply H1; lia|apply H2; auto; lia].
+Qed.
+
+Lemma fold_total : forall A (g : A -> acc -> option acc) l,
+  (forall x, In x l -> forall a, exists a', g x a = Some a') -> forall a, exists a', fold_opt g l a = Some a'.
+Proof.
+  intros A g. induction l as [|x r IH]; intros H a; simpl; [eauto|].
+  destruct (H x (or_introl eq_refl) a) as (a1 & E). rewrite E. apply IH. intros y Y. apply H. right; auto.
+Qed.
+
+Theorem walk_total : forall h, marks_ok h -> forall v, finite h v -> exists n, total_from h v n.
+Proof.
+  intros h MK v F. induction F as [|l _ IH|l _ IH1 _ IH2|n _ IHp _ IHi _ IHf].
+  - exists 1. intros m M a. destruct m; [lia|]. simpl. eauto.
+  - destruct (common_fuel _ (fun m v => forall a, exists a', walk h m v a = Some a') l IH) as (n & H).
+    exists (S n). intros m M a. destruct m as [|m]; [lia|]. simpl. apply fold_total. intros x X. apply H; auto. lia.
+  - destruct (common_fuel _ (fun m kv => forall a, exists a', walk h m (fst kv) a = Some a') l IH1) as (n1 & H1).
+    destruct (common_fuel _ (fun m kv => forall a, exists a', walk h m (snd kv) a = Some a') l IH2) as (n2 & H2).
+    exists (S (max n1 n2)). intros m M a. destruct m as [|m]; [lia|]. simpl. apply fold_total. intros kv X a0.
+    destruct (H1 m ltac:(lia) kv X a0) as (a1 & E1). rewrite E1. apply H2; auto. lia.
+  - destruct (common_fuel _ (fun m p => forall a, exists a', walk h m (VRef p) a = Some a') _ IHp) as (n1 & H1).
+    destruct (common_fuel _ (fun m p => forall a, exists a', walk h m (VRef p) a = Some a') _ IHi) as (n2 & H2).
+    assert (FF : exists n3, n_task (get h n) = None \/ n_loaded (get h n) = true ->
+                   forall m, n3 <= m -> forall v, In v (n_fields (get h n)) -> forall a, exists a', walk h m v a = Some a').
+    { destruct (n_task (get h n)) as [t|] eqn:T; [destruct (n_loaded (get h n)) eqn:LD|].
+      - destruct (common_fuel _ (fun m v => forall a, exists a', walk h m v a = Some a') _ (IHf (or_intror eq_refl))) as (n3 & H3).
+        exists n3. intros _. exact H3.
+      - exists 0. intros [X|X]; discriminate.
+      - destruct (common_fuel _ (fun m v => forall a, exists a', walk h m v a = Some a') _ (IHf (or_introl eq_refl))) as (n3 & H3).
+        exists n3. intros _. exact H3. }
+    destruct FF as (n3 & H3).
+    exists (S (max n1 (max n2 n3))). intros m M a. destruct m as [|m]; [lia|]. simpl.
+    destruct (fold_total _ (fun x => walk h m (VRef x)) (n_pre (get h n)) (fun x X => H1 m ltac:(lia) x X) a) as (a1 & E1).
+    rewrite E1.
+    destruct (fold_total _ (fun x => walk h m (VRef x)) (n_init (get h n)) (fun x X => H2 m ltac:(lia) x X) a1) as (a2 & E2).
+    rewrite E2.
+    destruct (n_task (get h n)) as [t|] eqn:T; [destruct (n_loaded (get h n)) eqn:LD|].
+    + apply fold_total. intros x X. apply (H3 (or_intror eq_refl) m); auto. lia.
+    + destruct (mem t (snd a2)); [eauto|].
+      destruct (proj2 MK n t T) as (k & K). destruct (proj1 MK t k K) as (_ & J). rewrite J. eauto.
+    + assert (G : forall a, exists a', fold_opt (walk h m) (n_fields (get h n)) a = Some a').
+      { apply fold_total. intros x X. apply (H3 (or_introl eq_refl) m); auto. lia. }
+      destruct (n_loaded (get h n)); apply G.
+Qed.
+
+(* the walk of submit() ends on every configuration without an infinite chain of references: there is a
+   recursion depth from which `collect` gives a result *)
+Theorem collect_total : forall h root explicit, marks_ok h -> finite h (VRef root) ->
+  exists n, forall m, n <= m -> exists ds, collect h m root explicit = Some ds.
+Proof.
+  intros h root explicit MK F. destruct (walk_total h MK _ F) as (n & H). exists n. intros m M.
+  unfold collect. destruct (H m M ([], [root])) as ([ds t] & E). rewrite E. eauto.
+Qed.
+
+(* more recursion depth never changes a result *)
+Lemma fold_mono : forall A (g g' : A -> acc -> option acc) l,
+  (forall x a a', In x l -> g x a = Some a' -> g' x a = Some a') ->
+  forall a a', fold_opt g l a = Some a' -> fold_opt g' l a = Some a'.
+Proof.
+  intros A g g'. induction l as [|x r IH]; intros H a a' E; simpl in *; auto.
+  destruct (g x a) as [a1|] eqn:G; [|discriminate]. rewrite (H x a a1 (or_introl eq_refl) G).
+  apply IH; [intros y b b' Y; apply H; right; auto|exact E].
+Qed.
+
+Definition walk_body (h : heap) (w : value -> acc -> option acc) (v : value) (a : acc) : option acc :=
+  match v with
+  | VAtom => Some a
+  | VList l => fold_opt w l a
+  | VDict l => fold_opt (fun kv a => match w (fst kv) a with Some a1 => w (snd kv) a1 | None => None end) l a
+  | VRef n =>
+      let nd := get h n in
+      match fold_opt (fun x => w (VRef x)) (n_pre nd) a with
+      | None => None
+      | Some a1 =>
+          match fold_opt (fun x => w (VRef x)) (n_init nd) a1 with
+          | None => None
+          | Some a2 =>
+              match n_task nd, n_loaded nd with
+              | Some t, false =>
+                  if mem t (snd a2) then Some a2
+                  else match n_jobof (get h t) with
+                       | Some k => Some (fst a2 ++ [k], t :: snd a2)
+                       | None => None
+                       end
+              | _, _ => fold_opt w (n_fields nd) a2
+              end
+          end
+      end
+  end.
+Lemma walk_S : forall h f v a, walk h (S f) v a = walk_body h (walk h f) v a.
+Proof. reflexivity. Qed.
+
+Lemma body_mono : forall h (w w' : value -> acc -> option acc),
+  (forall v a a', w v a = Some a' -> w' v a = Some a') ->
+  forall v a a', walk_body h w v a = Some a' -> walk_body h w' v a = Some a'.
+Proof.
+  intros h w w' M v a a' H. destruct v as [|l|l|n]; simpl in *; auto.
+  - apply fold_mono with (g := w); auto.
+  - apply fold_mono with (g := fun kv a => match w (fst kv) a with Some a1 => w (snd kv) a1 | None => None end); auto.
+    intros kv b b' _ X. destruct (w (fst kv) b) as [b1|] eqn:E1; [|discriminate]. rewrite (M _ _ _ E1). auto.
+  - destruct (fold_opt (fun x => w (VRef x)) (n_pre (get h n)) a) as [a1|] eqn:E1; [|discriminate].
+    rewrite (fold_mono _ (fun x => w (VRef x)) (fun x => w' (VRef x)) _ (fun x b b' _ X => M _ _ _ X) _ _ E1).
+    destruct (fold_opt (fun x => w (VRef x)) (n_init (get h n)) a1) as [a2|] eqn:E2; [|discriminate].
+    rewrite (fold_mono _ (fun x => w (VRef x)) (fun x => w' (VRef x)) _ (fun x b b' _ X => M _ _ _ X) _ _ E2).
+    assert (G : forall b b', fold_opt w (n_fields (get h n)) b = Some b' -> fold_opt w' (n_fields (get h n)) b = Some b').
+    { apply fold_mono. intros x b b' _ X. auto. }
+    destruct (n_task (get h n)) as [t|]; [destruct (n_loaded (get h n))|]; auto.
+Qed.
+
+Lemma walk_mono : forall h f v a a', walk h f v a = Some a' -> walk h (S f) v a = Some a'.
+Proof.
+  intros h. induction f as [|f IH]; intros v a a' H; [discriminate|].
+  rewrite walk_S. rewrite walk_S in H. apply body_mono with (w := walk h f); auto.
+Qed.
+
+Theorem collect_stable : forall h f f' root explicit ds, f <= f' ->
+  collect h f root explicit = Some ds -> collect h f' root explicit = Some ds.
+Proof.
+  intros h f f' root explicit ds L H. induction L as [|m L IH]; auto.
+  unfold collect in *. destruct (walk h m (VRef root) ([], [root])) as [[d t]|] eqn:E; [|discriminate].
+  rewrite (walk_mono _ _ _ _ _ E). exact IH.
+Qed.
+
+(* a configuration that contains itself: submit() raises RecursionError; no depth gives a result *)
+Definition h_cyc : heap := [ mk [VRef 0] [] [] None None None ].
+Theorem cyclic_never_collects : forall fuel explicit, collect h_cyc fuel 0 explicit = None.
+Proof.
+  intros fuel explicit. unfold collect.
+  assert (G : forall f a, walk h_cyc f (VRef 0) a = None).
+  { induction f as [|f IH]; intros a; [reflexivity|]. simpl. 
+    destruct f as [|f]; [reflexivity|]. change (walk h_cyc (S f) (VRef 0) a) with (walk h_cyc (S f) (VRef 0) a). rewrite IH. reflexivity. }
+  rewrite G. reflexivity.
+Qed.
+Lemma cyclic_not_finite : ~ finite h_cyc (VRef 0).
+Proof.
+  intros F. remember (VRef 0) as v eqn:E. induction F as [|l _ _|l _ _ _ _|n _ _ _ _ Hf IHf]; try discriminate.
+  inversion E; subst n. apply (IHf (or_introl eq_refl) (VRef 0)); simpl; auto.
+Qed.
+
+(* the hypotheses of collect_total hold of the heap with every embedding *)
+Ltac fin_step :=
+  match goal with
+  | |- finite _ VAtom => apply f_atom
+  | |- finite _ (VList _) => apply f_list; simpl; intros ? HH
+  | |- finite _ (VDict _) => apply f_dict; simpl; intros ? HH
+  | |- finite _ (VRef _) => apply f_ref; simpl; [intros ? HH|intros ? HH|intros _ ? HH]
+  | HH : False |- _ => contradiction
+  | HH : _ \/ _ |- _ => destruct HH as [HH|HH]; [subst; simpl|]
+  end.
+Example finite_all : finite h_all (VRef 7).
+Proof. repeat fin_step. Qed.
